@@ -277,10 +277,12 @@ impl<'a, 'p> Gen<'a, 'p> {
             self.p.w_comb[0],
             if zip_ok { self.p.w_comb[1] * 6 } else { 0 },
             if join_ok { self.p.w_comb[2] } else { 0 },
+            self.p.w_comb[1],
         ];
         match self.ch.weighted(&w) {
             0 => Combine::Merge,
             1 => Combine::Zip,
+            3 => Combine::ZipCount,
             _ => {
                 let kind = [JoinKind::Inner, JoinKind::Left, JoinKind::Outer][self.ch.below(3)];
                 let algo = [
@@ -303,7 +305,7 @@ impl<'a, 'p> Gen<'a, 'p> {
         let mut ls = ls;
         let mut rs = rs;
         match comb {
-            Combine::Merge | Combine::Zip => {
+            Combine::Merge | Combine::Zip | Combine::ZipCount => {
                 if ls.repl != rs.repl {
                     // forward inputs need equal replication: what a user would do is shuffle
                     if ls.repl != Repl::Unlimited {
@@ -334,6 +336,12 @@ impl<'a, 'p> Gen<'a, 'p> {
             Combine::Zip => St {
                 repl: Repl::One,
                 det: true,
+                bound: ls.bound.min(rs.bound),
+                ..ls
+            },
+            Combine::ZipCount => St {
+                repl: Repl::One,
+                det: false,
                 bound: ls.bound.min(rs.bound),
                 ..ls
             },
